@@ -19,7 +19,9 @@ T(r, c, hm, vm, mp) == TR(r, c, hm, vm, mp, <<>>)
 D(f, body, h, g) == [fmt |-> f, body |-> body, hdr |-> h, ftr |-> g, sheet |-> <<>>]
 \* a paragraph styled with style s of the sheet (ODT: a text:h of outline level l)
 StyP(s, l)       == [k |-> "S",   ch |-> <<R("r", <<"t">>)>>, lvl |-> l, how |-> "", num |-> "", sty |-> s, tb |-> NoTbl]
-St(decl, l, b)   == [decl |-> decl, lvl |-> l, based |-> b]
+St(decl, l, b)   == [decl |-> decl, lvl |-> l, based |-> b, loc |-> "doc"]
+StL(decl, l, b, loc) == [decl |-> decl, lvl |-> l, based |-> b, loc |-> loc]
+StyH(s, l, how)  == [k |-> "S",   ch |-> <<R("r", <<"t">>)>>, lvl |-> l, how |-> how, num |-> "", sty |-> s, tb |-> NoTbl]
 
 Fmts == {"docx", "odt"}
 
@@ -82,9 +84,7 @@ DocsD(x) == UNION {{D(f, <<h, Plain>>, hd, ft) : h \in Heads(f), hd \in {0, 1}, 
 
 \* (the families take a parameter so that TLC evaluates only the selected one)
 \* families A and B are enumerated by MCInit below, never materialised as a set
-MCDocs == CASE Fam = "C" -> DocsC(MaxDim)
-            [] Fam = "D" -> DocsD(0)
-            [] OTHER -> {}
+MCDocs == {}
 
 \* ---- family S: style sheets ------------------------------------------------
 \* The paragraph uses style 1; style i is based on style i + 1 (a chain of n <= MaxBlocks
@@ -102,6 +102,20 @@ ChainSheet(f, dcs, last) == [i \in 1..Len(dcs) |->
                                St(dcs[i], DeclLvl(f, dcs[i]), IF i < Len(dcs) THEN i + 1 ELSE last)]
 SDoc(f, sh) == [fmt |-> f, body |-> <<StyP(1, 3), Plain>>, hdr |-> 0, ftr |-> 0, sheet |-> sh]
 
+\* ---- family O: declaration order and place of the styles ---------------------
+\* n = 2..MaxBlocks independent styles (each based on the default style), each declaring a
+\* heading level of its own kind or nothing, with distinct levels, declared in sheet order;
+\* the heading uses style s = first / middle / last.  ODT: every style sits in styles.xml or
+\* among the automatic styles of content.xml, the heading has an outline level of its own (5)
+\* or none; a second heading with its own level uses another style ("mixed").
+DeclO(f) == IF f = "docx" THEN {"none", "builtin", "nameL", "outline"} ELSE {"none", "builtin", "outline"}
+LvlO(i, dc) == i + (IF dc = "builtin" THEN 0 ELSE 4)          \* distinct per position
+\* (chain = 1: the style the heading uses is based on its neighbour instead of the default
+\* style - a parent chain that may cross the two places)
+SheetO(f, dcs, locs, s, other, chain) ==
+    [i \in 1..Len(dcs) |-> StL(dcs[i], LvlO(i, dcs[i]), IF chain = 1 /\ i = s THEN other ELSE -1, locs[i])]
+LocSeqs(f, n) == IF f = "docx" THEN {[i \in 1..n |-> "doc"]} ELSE SeqN({"doc", "auto"}, n)
+
 \* ---- family L: list trees ---------------------------------------------------
 LIh(l, num, how) == [k |-> "LI", ch |-> <<R("r", <<"t">>)>>, lvl |-> l, how |-> how, num |-> num, sty |-> 0, tb |-> NoTbl]
 ShapesL(f) == {LIh(l, "bullet", "") : l \in 0..3}
@@ -111,20 +125,40 @@ ShapesL(f) == {LIh(l, "bullet", "") : l \in 0..3}
 
 \* Init written with quantifiers: TLC enumerates the function sets directly instead of
 \* building (sorting, de-duplicating) one big set of documents first
-MCInit ==
-    /\ pos = 0 /\ out = <<>>
-    /\ CASE Fam = "A" -> \E f \in Fmts : \E n \in 1..MaxBlocks : \E b \in SeqN(ShapesA(f), n) :
+FamInit(fm, mb) ==
+    CASE fm = "A" -> \E f \in Fmts : \E n \in 1..mb : \E b \in SeqN(ShapesA(f), n) :
                              ListOK(b) /\ doc = D(f, b, 0, 0)
-         [] Fam = "B" -> \E f \in Fmts : \E n \in 1..MaxCh : \E ch \in SeqN(Children(f, MaxAt), n) :
-                             NTok(P(ch)) >= 1 /\ doc = D(f, <<P(ch)>>, 0, 0)
-         [] Fam = "L" -> \E f \in Fmts : \E n \in 1..MaxBlocks : \E b \in SeqN(ShapesL(f), n) : \E tail \in {0, 1} :
+         [] fm = "B" -> \E f \in Fmts : \E n \in 1..MaxCh : \E ch \in SeqN(Children(f, MaxAt), n) :
+                             /\ NTok(P(ch)) >= 1 /\ doc = D(f, <<P(ch)>>, 0, 0)
+                             \* (mb = 0, the combined quick run: a second child has one atom)
+                             /\ mb = 0 => \A q \in 2..n : Len(ch[q].a) = 1
+         [] fm = "L" -> \E f \in Fmts : \E n \in 1..mb : \E b \in SeqN(ShapesL(f), n) : \E tail \in {0, 1} :
                              /\ ListOK(b)
                              /\ doc = D(f, IF tail = 1 THEN <<Plain>> \o b \o <<Plain>> ELSE b, 0, 0)
-         [] Fam = "S" -> \E f \in Fmts : \E n \in 1..MaxBlocks : \E dcs \in SeqN(SheetDecls(f), n) :
+         [] fm = "O" -> \E f \in Fmts : \E n \in 2..mb : \E dcs \in SeqN(DeclO(f), n) : \E locs \in LocSeqs(f, n) :
+                           \E s \in 1..n : \E how \in (IF f = "odt" THEN {"", "noattr"} ELSE {""}) : \E mc \in {<<0, 0>>, <<1, 0>>, <<0, 1>>} :
+                             LET mixed == mc[1]
+                                 chain == mc[2]
+                                 other == IF s = n THEN 1 ELSE s + 1
+                                 sh == SheetO(f, dcs, locs, s, other, chain) IN
+                             /\ SheetOK(f, sh)
+                             /\ doc = [fmt |-> f, hdr |-> 0, ftr |-> 0, sheet |-> sh,
+                                       body |-> IF mixed = 1 THEN <<StyH(other, 2, ""), StyH(s, 5, how), Plain>>
+                                                ELSE <<StyH(s, 5, how), Plain>>]
+         [] fm = "S" -> \E f \in Fmts : \E n \in 1..mb : \E dcs \in SeqN(SheetDecls(f), n) :
                            \E last \in {-2, -1, 0} \cup (1..n) :
                              /\ SheetOK(f, ChainSheet(f, dcs, last))
                              /\ doc = SDoc(f, ChainSheet(f, dcs, last))
-         [] OTHER -> doc \in MCDocs
+         [] fm = "C" -> doc \in DocsC(MaxDim)
+         [] fm = "D" -> doc \in DocsD(0)
+
+\* Fam = "Q": all families with their quick bounds in one run (one JVM start instead of seven)
+MCInit ==
+    /\ pos = 0 /\ out = <<>>
+    /\ IF Fam = "Q"
+       THEN \/ FamInit("A", 3) \/ FamInit("B", 0) \/ FamInit("C", 0) \/ FamInit("D", 0)
+            \/ FamInit("S", 4) \/ FamInit("L", 3) \/ FamInit("O", 3)
+       ELSE FamInit(Fam, MaxBlocks)
 
 \* ---- case emission ---------------------------------------------------------
 Grids(body) == [i \in 1..Len(body) |-> IF body[i].k = "TBL" THEN Grid(body[i].tb) ELSE <<>>]
